@@ -213,11 +213,17 @@ def make(rng, cls, exotic=0.0, kind=None):
         def let(bindings, body, so):
             return T(None, [syn('let'), T(None, [T(None, [syn(n_), t_], None, 'syntax') for n_, t_ in bindings], None, 'syntax'), body], so)
         use = app('=', [leaf(name, vs), leaf(v, vs)], BOOL)
-        k = kind or rng.choice(['parallel', 'nested', 'shadow', 'quant', 'plain2'])
+        k = kind or rng.choice(['parallel', 'nested', 'shadow', 'quant', 'plain2', 'swap'])
         if k == 'parallel':
             t = let([(name, mention(v)), (v, lit())], use, BOOL)
         elif k == 'nested':
             t = let([(name, mention(v))], let([(v, lit())], use, BOOL), BOOL)
+        elif k == 'swap':
+            # two declared symbols, each bound to the other by the same let
+            w = g.fresh('cw')
+            g.cmds.append(syn(('declare-const', w, vs)))
+            g.vars.append((w, vs))
+            t = let([(w, leaf(v, vs)), (v, leaf(w, vs))], app('=', [leaf(v, vs), rng.choice([leaf(v, vs), lit()])], BOOL), BOOL)
         elif k == 'shadow':
             t = let([(name, lit())], app('and', [use, let([(name, mention(v))], use, BOOL)], BOOL), BOOL)
         elif k == 'quant':
